@@ -353,3 +353,342 @@ Proof.
     injection H as <-. cbn [sp_slot sp_sub]. intros C1 _.
     now rewrite (chunk_sound _ Ha (C1 _ eq_refl)).
 Qed.
+
+(* ---------------------------------------------------------------- no ":" inside an accepted cpv *)
+Lemma pkg_name_no_colon n : pms_pkg_name n = true -> ~ In c_colon n.
+Proof.
+  unfold pms_pkg_name. intros H Hin. apply andb_true_iff in H as [H _]. apply andb_true_iff in H as [H _].
+  rewrite forallb_forall in H. specialize (H _ Hin). vm_compute in H. discriminate.
+Qed.
+
+Lemma cpv_no_colon vd s c : ~ In c_nl s -> parse_cpv vd s = Some c -> ~ In c_colon s.
+Proof.
+  intros Hn H. apply cpv_structure in H as (cat & pkgver & -> & Hsl & Hc & Hshape).
+  destruct (cat_sound cat (not_in_app_l _ _ _ Hn) Hc) as [Hcat _].
+  assert (Hnp : ~ In c_nl pkgver) by (intros Hin; apply Hn, in_or_app; right; now right).
+  intros Hin. apply in_app_or in Hin as [Hin|[Hin|Hin]]; [|discriminate|].
+  - unfold pms_category in Hcat. apply andb_true_iff in Hcat as [Hcat _].
+    rewrite forallb_forall in Hcat. specialize (Hcat _ Hin). vm_compute in Hcat. discriminate.
+  - destruct vd.
+    + destruct Hshape as (name & v & Hp & Hv & _ & Hs).
+      assert (Hvc : ~ In c_colon v) by (apply (m_version_foreign c_colon); [vm_compute; reflexivity | exact Hv]).
+      destruct Hs as [[-> _] | (r & -> & Hr & _)].
+      * apply in_app_or in Hin as [Hin|[Hin|Hin]]; [|discriminate | exact (Hvc Hin)].
+        exact (pkg_name_no_colon _ (name_sound _ (not_in_app_l _ _ _ Hnp) Hp) Hin).
+      * apply in_app_or in Hin as [Hin|[Hin|Hin]]; [|discriminate|].
+        -- exact (pkg_name_no_colon _ (name_sound _ (not_in_app_l _ _ _ Hnp) Hp) Hin).
+        -- apply in_app_or in Hin as [Hin|[Hin|Hin]]; [exact (Hvc Hin) | discriminate|].
+           unfold isvalid_rev in Hr. destruct r as [|x t]; [discriminate|].
+           apply andb_true_iff in Hr as [Hr Hd]. apply andb_true_iff in Hr as [Hx _].
+           apply N.eqb_eq in Hx. subst x. destruct Hin as [Hin|Hin]; [discriminate|].
+           exact (digits_no c_colon t eq_refl Hd Hin).
+    + exact (pkg_name_no_colon _ (name_sound _ Hnp Hshape) Hin).
+Qed.
+
+Lemma parse_cpv_nonempty vd s c : parse_cpv vd s = Some c -> s <> [].
+Proof. intros H ->. destruct vd; discriminate. Qed.
+
+(* ---------------------------------------------------------------- operator and blocker stages *)
+Lemma op_sound b st a2 b' st' op cpv c :
+  stage_op b st a2 = R3 b' st' op cpv ->
+  parse_cpv (negb (is_nil op)) cpv = Some c ->
+  str_eqb op [c_tilde] && nonempty_opt (c_rev c) = false ->
+  ~ In c_nl cpv -> (forall v, c_ver c = Some v -> no_upper v = true) ->
+  pms_op_cpv a2 = true.
+Proof.
+  unfold stage_op, pms_op_cpv. destruct a2 as [|d t2]; [discriminate|].
+  change 60 with c_lt. change 62 with c_gt. change 126 with c_tilde. change 61 with c_eq. change 42 with c_star.
+  intros H Hp Ht Hn Hup.
+  destruct ((d =? c_lt) || (d =? c_gt)) eqn:Elg.
+  - destruct t2 as [|e t3].
+    + injection H as _ _ <- <-. discriminate.
+    + destruct (e =? c_eq); injection H as _ _ <- <-; cbn [is_nil negb] in Hp;
+        exact (proj1 (cpv_versioned_sound _ _ Hn Hp Hup)).
+  - destruct (N.eqb_spec d c_tilde) as [->|Htl].
+    + cbn in H. injection H as _ _ <- <-. cbn [is_nil negb] in Hp.
+      rewrite str_eqb_refl in Ht. cbn [andb] in Ht.
+      exact (proj2 (cpv_versioned_sound _ _ Hn Hp Hup) Ht).
+    + destruct (N.eqb_spec d c_eq) as [->|Heq].
+      * destruct (lastc (c_eq :: t2)) as [l|] eqn:El; [|destruct t2; discriminate].
+        apply lastc_some in El.
+        destruct t2 as [|y t']; [cbn in El; injection El as <-; cbn in H; injection H as _ _ <- <-; discriminate|].
+        change (removelast (c_eq :: y :: t')) with (c_eq :: removelast (y :: t')) in El.
+        injection El as El. rewrite El at 1. rewrite rev_app_distr. cbn [rev app].
+        destruct (l =? c_star); injection H as _ _ <- <-; cbn [is_nil negb] in Hp.
+        -- rewrite rev_involutive. exact (proj1 (cpv_versioned_sound _ _ Hn Hp Hup)).
+        -- exact (proj1 (cpv_versioned_sound _ _ Hn Hp Hup)).
+      * injection H as _ _ <- <-. cbn [is_nil negb] in Hp. exact (cpv_unversioned_sound _ _ Hn Hp).
+Qed.
+
+Lemma prefix_sound g f lft b st op cpv :
+  stage_prefix g lft = R3 b st op cpv ->
+  g_strong_blockers g = f_strong f ->
+  (forall b0 st0 a2 b' st', stage_op b0 st0 a2 = R3 b' st' op cpv -> pms_op_cpv a2 = true) ->
+  pms_blocker_rest f lft = true.
+Proof.
+  unfold stage_prefix, pms_blocker_rest. destruct lft as [|c t]; [discriminate|].
+  change 33 with c_bang. intros H G3 Hop.
+  destruct (N.eqb_spec c c_bang) as [->|Hb].
+  - destruct t as [|d t']; [cbn in H; discriminate|].
+    destruct (N.eqb_spec d c_bang) as [->|Hd]; cbn [andb] in H.
+    + rewrite <- G3. destruct (g_strong_blockers g); cbn [negb andb] in *; [|discriminate].
+      cbn [tl] in H. exact (Hop _ _ _ _ _ H).
+    + exact (Hop _ _ _ _ _ H).
+  - cbn [andb] in H. exact (Hop _ _ _ _ _ H).
+Qed.
+
+(* ---------------------------------------------------------------- everything left of the USE block *)
+Lemma parse_rest_inv e n g body use colon a :
+  parse_rest e n g (body, use, colon) = Ok a ->
+  exists lft p b st op cpv c,
+    match colon with
+    | Some (l, r) => lft = l /\ stage_slot g r = Some p
+    | None => lft = body /\ p = no_slot
+    end
+    /\ stage_prefix g lft = R3 b st op cpv
+    /\ is_some (sp_slot p) && negb (g_slot_deps g) = false
+    /\ is_some use && negb (g_use_deps g) = false
+    /\ is_some e && is_some (sp_repo p) = false
+    /\ parse_cpv (negb (is_nil op)) cpv = Some c
+    /\ str_eqb op [c_tilde] && nonempty_opt (c_rev c) = false
+    /\ a_ver a = c_ver c /\ a_slot a = sp_slot p /\ a_subslot a = sp_sub p /\ a_use a = use.
+Proof.
+  unfold parse_rest.
+  set (sp := match colon with Some (lft, rgt) => _ | None => _ end).
+  destruct sp as [[lft p]|] eqn:Esp; [|discriminate].
+  destruct (stage_prefix g lft) as [b st op cpv|] eqn:Ep; [|discriminate].
+  destruct (is_some (sp_slot p) && negb (g_slot_deps g)) eqn:E1; [discriminate|].
+  destruct (is_some use && negb (g_use_deps g)) eqn:E2; [discriminate|].
+  destruct (is_some e && is_some (sp_repo p)) eqn:E3; [discriminate|].
+  destruct (parse_cpv (negb (is_nil op)) cpv) as [c|] eqn:Ec; [|discriminate].
+  destruct (str_eqb op [c_tilde] && nonempty_opt (c_rev c)) eqn:Et; [discriminate|].
+  intros H; injection H as <-.
+  exists lft, p, b, st, op, cpv, c. cbn [a_ver a_slot a_subslot a_use].
+  repeat split; try assumption.
+  unfold sp in Esp. destruct colon as [[l r]|].
+  - destruct (stage_slot g r) as [p'|]; [|discriminate]. injection Esp as <- <-. auto.
+  - injection Esp as <- <-. auto.
+Qed.
+
+Lemma in_p_head b st op cpv x : In x cpv -> In x (p_head b st op cpv).
+Proof.
+  intros H. unfold p_head. apply in_or_app. right.
+  destruct (str_eqb op [c_eq; c_star]); [right; apply in_or_app; now left | apply in_or_app; now right].
+Qed.
+
+Lemma p_head_last b st op cpv : cpv <> [] ->
+  exists z w, p_head b st op cpv = z ++ [w] /\ (In w cpv \/ w = c_star).
+Proof.
+  intros Hne. unfold p_head. rewrite (removelast_last_eq cpv Hne).
+  destruct (str_eqb op [c_eq; c_star]).
+  - eexists _, c_star. split; [|now right].
+    rewrite app_comm_cons, app_assoc. reflexivity.
+  - eexists _, (last cpv 0). split.
+    + rewrite !app_assoc. reflexivity.
+    + left. rewrite <- (removelast_last_eq cpv Hne). apply last_in. exact Hne.
+Qed.
+
+Record clean_atom (a : atom_rec) : Prop := {
+  cl_ver : forall v, a_ver a = Some v -> no_upper v = true;
+  cl_slot : clean_slot (a_slot a);
+  cl_sub : clean_slot (a_subslot a) }.
+
+Lemma tail_sound e n g f body use colon a :
+  features_of e = Some f -> gates_feat g f -> f_repo f = negb (is_some e) ->
+  parse_rest e n g (body, use, colon) = Ok a ->
+  ~ In c_nl body ->
+  match colon with
+  | Some (l, r) => body = l ++ c_colon :: r /\ ~ In c_colon l
+  | None => ~ In c_colon (removelast body)
+  end ->
+  clean_atom a ->
+  spec_tail f body = true.
+Proof.
+  intros Hf (G1 & G2 & G3 & G4 & G5) Hrepo Hr Hnl Hcol [Cv Cs Cb].
+  apply parse_rest_inv in Hr as (lft & p & b & st & op & cpv & c & Hsp & Ep & E1 & E2 & E3 & Ec & Et & Av & As & Ab & _).
+  rewrite Av in Cv. rewrite As in Cs. rewrite Ab in Cb.
+  pose proof (stage_prefix_print _ _ _ _ _ _ Ep) as Hleft.
+  assert (Hsub : forall x, In x lft -> In x body).
+  { destruct colon as [[l r]|]; destruct Hsp as [-> _]; [|auto].
+    destruct Hcol as [-> _]. intros x Hx. apply in_or_app. now left. }
+  assert (Hncpv : ~ In c_nl cpv).
+  { intros Hin. apply Hnl, Hsub. rewrite Hleft. now apply in_p_head. }
+  assert (Hbl : pms_blocker_rest f lft = true).
+  { apply (prefix_sound g f lft b st op cpv Ep G3). intros b0 st0 a2 b' st' Hop.
+    exact (op_sound _ _ _ _ _ _ _ _ Hop Ec Et Hncpv Cv). }
+  unfold spec_tail. change 58 with c_colon.
+  destruct colon as [[l r]|]; destruct Hsp as [-> Hp].
+  - destruct Hcol as [-> Hl].
+    assert (Hsl : forall slot ro, slot_body g slot ro = Some p -> pms_slot_spec f slot = true).
+    { intros slot ro Hb. apply (slot_body_sound g f slot ro p Hb G5 G1 (features_sub_slot _ _ Hf) Cs Cb). }
+    rewrite (sd_app l (c_colon :: r) Hl).
+    unfold stage_slot in Hp.
+    destruct (split_dcolon (c_colon :: r)) as [[a0 rep]|] eqn:Ed; cbn [fst snd] in Hp.
+    + pose proof (split_dcolon_spec _ _ _ Ed) as Es.
+      destruct (repo_ok (Some rep)) eqn:Er; cbn [negb] in Hp; [|discriminate].
+      assert (Hrp : sp_repo p = Some rep).
+      { destruct (tl a0) as [|x0 t0]; [injection Hp as <-; reflexivity|].
+        exact (proj2 (slot_body_print _ _ _ _ Hp)). }
+      rewrite Hrp in E3. cbn [is_some] in E3. rewrite andb_true_r in E3.
+      assert (Hfr : f_repo f = true) by (rewrite Hrepo, E3; reflexivity).
+      rewrite Hfr. cbn [fst snd].
+      rewrite <- (proj1 (proj2 (proj2 charsets_agree_proof)) rep), Er. cbn [andb].
+      destruct a0 as [|x0 a'].
+      * rewrite app_nil_r. rewrite (proj2 (split_first_none c_colon l) Hl). cbn [fst snd andb]. exact Hbl.
+      * cbn in Es. injection Es as <- Es. destruct a' as [|c0 t0].
+        -- exfalso. subst r. cbn in Ed. discriminate.
+        -- cbn [tl] in Hp. rewrite (split_first_app _ _ _ Hl). cbn [fst snd].
+           rewrite (Hsl _ _ Hp). exact Hbl.
+    + cbn [repo_ok negb tl] in Hp. destruct r as [|c0 t0]; [discriminate|].
+      destruct (f_repo f); cbn [fst snd]; rewrite (split_first_app _ _ _ Hl); cbn [fst snd andb];
+        rewrite (Hsl _ _ Hp); exact Hbl.
+  - (* no ":" at all *)
+    assert (Hnc : ~ In c_colon body).
+    { destruct (p_head_last b st op cpv (parse_cpv_nonempty _ _ _ Ec)) as (z & w & Hz & Hw).
+      rewrite <- Hleft in Hz. rewrite Hz in Hcol |- *. rewrite removelast_last in Hcol.
+      intros Hin. apply in_app_or in Hin as [Hin|[Hin|[]]]; [exact (Hcol Hin)|].
+      subst w. destruct Hw as [Hw|Hw]; [|discriminate].
+      exact (cpv_no_colon _ _ _ Hncpv Ec Hw). }
+    rewrite (sd_none _ Hnc).
+    destruct (f_repo f); cbn [fst snd]; rewrite (proj2 (split_first_none c_colon body) Hnc); cbn [fst snd andb];
+      exact Hbl.
+Qed.
+
+(* ---------------------------------------------------------------- the USE block and the whole atom *)
+Lemma decl_no_lbr d x : decl d x -> ~ In c_lbr x.
+Proof.
+  intros (P & name & D & S & -> & Hf & HP & HD & HS) Hin.
+  apply in_app_or in Hin as [Hin|Hin].
+  - destruct HP as [-> | [[-> _] | [-> _]]]; [destruct Hin | |]; destruct Hin as [H|[]]; discriminate.
+  - apply in_app_or in Hin as [Hin|Hin].
+    + destruct (use_flag_facts _ Hf) as [Hall _]. rewrite forallb_forall in Hall.
+      specialize (Hall _ Hin). vm_compute in Hall. discriminate.
+    + apply in_app_or in Hin as [Hin|Hin].
+      * destruct HD as [-> | (_ & b & [-> | ->] & ->)]; [destruct Hin | |];
+          repeat (destruct Hin as [Hin|Hin]; [discriminate|]); destruct Hin.
+      * destruct HS as [-> | [-> | ->]]; [destruct Hin | |]; destruct Hin as [H|[]]; discriminate.
+Qed.
+
+(* SOUNDNESS: whatever the model of atom.__init__ accepts is a PMS atom for that EAPI — provided
+   the text has no newline, the version carries no upper-case letter and no slot / sub-slot name
+   begins with "+" (the three recorded classes; non-ASCII digits are outside the model). *)
+Lemma accept_sound_proof :
+  forall e n s a,
+    parse_atom e n s = Ok a -> ~ In c_nl s -> clean_atom a -> pms_atom_b e s = true.
+Proof.
+  intros e n s a. unfold parse_atom. destruct s as [|x0 t0] eqn:Es; [discriminate|]. rewrite <- Es. clear Es x0 t0.
+  destruct (gates_of e) as [g|] eqn:Eg; [|discriminate].
+  destruct (gates_features _ _ Eg) as (f & Hf & G & Hrepo).
+  unfold pms_atom_b. rewrite Hf. unfold pms_atom_feat.
+  destruct (stage_use g s) as [[[body use] colon]|] eqn:Eu; [|discriminate].
+  intros Hr Hnl Hcl. unfold stage_use in Eu.
+  destruct (split_first c_lbr s) as [[pre post]|] eqn:E1.
+  - destruct (split_first c_rbr post) as [[u tail]|] eqn:E2; [|discriminate].
+    destruct tail as [|? ?]; cbn [is_nil negb] in Eu; [|discriminate].
+    destruct (forallb (valid_use_dep (g_use_defaults g)) (sort_strs (split_on c_comma u))) eqn:Ev; [|discriminate].
+    injection Eu as <- <- <-.
+    apply split_first_spec in E1 as [-> Hpre]. apply split_first_spec in E2 as [-> Hu].
+    assert (Hnpre : ~ In c_nl pre) by exact (not_in_app_l _ _ _ Hnl).
+    assert (Hnu : ~ In c_nl u).
+    { intros Hin. apply Hnl, in_or_app. right. right. apply in_or_app. now left. }
+    destruct G as (G1 & G2 & G3 & G4 & G5).
+    assert (Hdeps : forall x, In x (split_on c_comma u) ->
+                              valid_use_dep (f_defaults f) x = true /\ ~ In c_nl x).
+    { intros x Hx. split.
+      - rewrite <- G4. rewrite forallb_forall in Ev. apply Ev. now apply sort_in.
+      - intros Hin. apply Hnu. exact (split_on_chars _ _ _ _ Hx Hin). }
+    assert (Hulbr : ~ In c_lbr (u ++ [c_rbr])).
+    { intros Hin. apply in_app_or in Hin as [Hin|[Hin|[]]]; [|discriminate].
+      rewrite <- (join_split_on c_comma u) in Hin.
+      apply in_join in Hin as [Hin|(x & Hx & Hin)]; [discriminate|].
+      destruct (Hdeps _ Hx) as [Hv Hn]. exact (decl_no_lbr _ _ (model_decl _ _ Hn Hv) Hin). }
+    unfold use_split. change 91 with c_lbr. change 93 with c_rbr. change 44 with c_comma.
+    rewrite (split_last_app _ _ _ Hulbr). rewrite rev_app_distr. cbn [rev app]. rewrite N.eqb_refl.
+    cbn [fst snd]. rewrite rev_involutive.
+    pose proof Hr as Hr'.
+    apply parse_rest_inv in Hr' as (_ & _ & _ & _ & _ & _ & _ & _ & _ & _ & EU & _).
+    cbn [is_some andb] in EU. apply negb_false_iff in EU. rewrite <- G2, EU. cbn [andb].
+    assert (Hall : forallb (pms_use_dep (f_defaults f)) (split_on c_comma u) = true).
+    { apply forallb_forall. intros x Hx. destruct (Hdeps _ Hx) as [Hv Hn]. now apply use_dep_sound. }
+    rewrite Hall. cbn [andb].
+    apply (tail_sound e n g f pre _ _ a Hf (conj G1 (conj G2 (conj G3 (conj G4 G5)))) Hrepo Hr Hnpre); [|exact Hcl].
+    destruct (split_first c_colon pre) as [[l r]|] eqn:E3.
+    + apply split_first_spec in E3 as [-> Hl]. auto.
+    + intros Hin. apply (proj1 (split_first_none c_colon pre) E3). now apply in_removelast.
+  - injection Eu as <- <- <-.
+    unfold use_split. change 91 with c_lbr.
+    rewrite (split_last_none _ _ (proj1 (split_first_none c_lbr s) E1)). cbn [fst snd andb].
+    apply (tail_sound e n g f s _ _ a Hf G Hrepo Hr Hnl); [|exact Hcl].
+    assert (Hne : s <> []) by (intros ->; cbn in Hr; discriminate).
+    destruct (split_first c_colon (removelast s)) as [[p q]|] eqn:E3.
+    + apply split_first_spec in E3 as [E3 Hp]. split; [|exact Hp].
+      rewrite (removelast_last_eq s Hne) at 1. rewrite E3. now rewrite <- app_assoc.
+    + exact (proj1 (split_first_none c_colon (removelast s)) E3).
+Qed.
+
+(* ---------------------------------------------------------------- package names: both directions *)
+Lemma no_upper_sub (a b : str) : (forall x, In x a -> In x b) -> no_upper b = true -> no_upper a = true.
+Proof.
+  intros Hs Hb. unfold no_upper in *. apply forallb_forall. intros x Hx.
+  rewrite forallb_forall in Hb. now apply Hb, Hs.
+Qed.
+
+(* the recorded class, on names: some "-"-chunk is a version for the code's regex but carries an
+   upper-case letter *)
+Definition upper_version_chunk (name : str) : bool :=
+  existsb (fun ch => m_version ch && negb (no_upper ch)) (split_on c_dash name).
+
+Lemma name_complete name :
+  ~ In c_nl name -> upper_version_chunk name = false ->
+  pms_pkg_name name = true -> valid_pkg_name (split_on c_dash name) = true.
+Proof.
+  intros Hn Hup H. unfold pms_pkg_name in H.
+  apply andb_true_iff in H as [H Hcut]. apply andb_true_iff in H as [Hchars Hfirst].
+  apply negb_true_iff in Hcut.
+  assert (Hnocut : forall p suf, name = p ++ c_dash :: suf -> pms_version_rev suf = true -> False).
+  { intros p suf E Hv. assert (Hex : existsb (fun pq => pms_version_rev (snd pq)) (hyphen_cuts name) = true).
+    { apply existsb_exists. exists (p, suf). split; [rewrite E; apply hyphen_cuts_in | exact Hv]. }
+    congruence. }
+  assert (Hm2p : forall v, In v (split_on c_dash name) -> m_version v = true -> pms_version v = true).
+  { intros v Hin Hv. rewrite <- (proj1 version_agree_proof v); [exact Hv | |].
+    - intros Hx. apply Hn. exact (split_on_chars _ _ _ _ Hin Hx).
+    - unfold upper_version_chunk in Hup. destruct (no_upper v) eqn:Eu; [exact Eu|]. exfalso.
+      assert (Hex : existsb (fun ch => m_version ch && negb (no_upper ch)) (split_on c_dash name) = true).
+      { apply existsb_exists. exists v. split; [exact Hin | now rewrite Hv, Eu]. }
+      congruence. }
+  apply pkg_name_boundary_proof. repeat split.
+  - unfold first_not in Hfirst. destruct name as [|x t]; [discriminate|]. exists x, t. split; [reflexivity|].
+    cbn [existsb] in Hfirst. rewrite orb_false_r in Hfirst. apply negb_true_iff, orb_false_iff in Hfirst as [H1 H2].
+    split; apply N.eqb_neq; assumption.
+  - apply forallb_forall. intros ch Hch. unfold pkg_chunk_ok. destruct ch as [|x t] eqn:Ech; [reflexivity|].
+    rewrite <- Ech in *. cbn [is_nil orb].
+    assert (Hnc : ~ In c_nl ch) by (intros Hin; apply Hn; exact (split_on_chars _ _ _ _ Hch Hin)).
+    unfold m_pkg_chunk_re, re_plus. rewrite (strip_nl_id _ Hnc). rewrite Ech. rewrite <- Ech.
+    assert (Hall : all_in pkg_class ch = true).
+    { apply forallb_forall. intros y Hy. rewrite cls_pkg. apply andb_true_iff. split.
+      - rewrite forallb_forall in Hchars. apply Hchars. exact (split_on_chars _ _ _ _ Hch Hy).
+      - apply negb_true_iff, N.eqb_neq. intros ->. exact (split_on_no_sep _ _ _ Hch Hy). }
+    rewrite Ech in *. exact Hall.
+  - intros (p & v & E & Hv). apply (Hnocut p v E).
+    pose proof (m_version_no_dash _ Hv) as Hvd.
+    assert (Hin : In v (split_on c_dash name)).
+    { rewrite E, split_on_app, (split_on_nosep _ _ Hvd). apply in_or_app. right. now left. }
+    unfold pms_version_rev. change 45 with c_dash.
+    rewrite (proj2 (split_first_none c_dash v) Hvd). exact (Hm2p _ Hin Hv).
+  - intros (p & v & r & E & Hv & Hr). apply (Hnocut p (v ++ c_dash :: r) E).
+    pose proof (m_version_no_dash _ Hv) as Hvd. pose proof (isvalid_rev_no_dash _ Hr) as Hrd.
+    assert (Hin : In v (split_on c_dash name)).
+    { rewrite E, split_on_app. apply in_or_app. right.
+      rewrite split_on_app, (split_on_nosep _ _ Hvd). now left. }
+    unfold pms_version_rev. change 45 with c_dash.
+    rewrite (split_first_app _ _ _ Hvd). rewrite (Hm2p _ Hin Hv). cbn [andb].
+    now rewrite <- rev_is_pms.
+Qed.
+
+(* isvalid_pkg_name = PMS 3.1.2 on names without newline, outside the recorded class *)
+Lemma pkg_name_agree_proof :
+  forall name, ~ In c_nl name -> upper_version_chunk name = false ->
+               valid_pkg_name (split_on c_dash name) = pms_pkg_name name.
+Proof.
+  intros name Hn Hup. apply eq_true_iff_eq. split; [now apply name_sound | now apply name_complete].
+Qed.
